@@ -83,7 +83,13 @@ func render(d gen.Doc, res *fw.Result) (r *wr.Rendered, stalled string, err erro
 	r, err = wr.Render(wr.Opts{HTML: d.HTML, UserCSS: d.UserCSS, Hints: d.Hints, Engine: d.Engine, Zoom: d.Zoom, Files: d.Files})
 	res.Count("page_loop_iterations", int64(wr.PageLoopIterations))
 	if s, ok := err.(*wr.StallError); ok {
-		return r, s.Kind + ": " + s.Msg, nil
+		kind := s.Kind
+		if kind == "content" && (strings.Contains(d.HTML, "<thead") || strings.Contains(d.HTML, "<tfoot") || strings.Contains(d.HTML, "table-header-group") || strings.Contains(d.HTML, "table-footer-group")) {
+			// a repeated table header/footer group is in play: the identified trigger of finding
+			// F-C01-page-loop-stall-repeated-table-group; other content stalls keep the plain signature
+			kind = "content+repeated-table-group"
+		}
+		return r, kind + ": " + s.Msg, nil
 	}
 	return
 }
